@@ -71,6 +71,7 @@ func main() {
 	verbose := flag.Bool("v", false, "verbose")
 	slog := flag.String("solverlog", "", "write worker 0's solver input here")
 	list := flag.Bool("list", false, "list harness functions and exit")
+	nomerge := flag.Bool("nomerge", false, "disable if-conversion of pure diamonds")
 	budget := flag.Int("budget", 0, "wall-clock budget in seconds (0 = none); exceeding it makes the run incomplete")
 	flag.Parse()
 
@@ -151,7 +152,7 @@ func main() {
 		fatal(fmt.Errorf("harness vfH_%s not found in %s", *harness, hpkg.Pkg.Path()))
 	}
 	c := Config{Harness: *harness, Pkg: *pkgPat, Workers: *workers, SolverKind: *solver, TimeoutMs: *timeout,
-		MaxSteps: *maxSteps, MaxPaths: *maxPaths, WitnessEach: *witness, Verbose: *verbose, SolverLog: *slog, AltSolver: *alt}
+		MaxSteps: *maxSteps, MaxPaths: *maxPaths, WitnessEach: *witness, Verbose: *verbose, SolverLog: *slog, AltSolver: *alt, NoMerge: *nomerge}
 	if *budget > 0 {
 		c.Deadline = time.Now().Add(time.Duration(*budget) * time.Second)
 	}
@@ -192,6 +193,20 @@ func main() {
 	fmt.Printf("harness=%s paths=%d kinds=%v obligations=%d discharged=%d solverq=%d solver=%.1fs wall=%.1fs load=%.1fs inconclusive=%d complete=%v\n",
 		*harness, st.Paths, st.ByKind, st.Obligations, st.Discharged, st.SolverQ, st.SolverTime.Seconds(), time.Since(t1).Seconds(), loadSec, st.Inconclusive, o.Complete)
 	if *verbose {
+		type kv struct {
+			k string
+			v int
+		}
+		var kvs []kv
+		for k, v := range x.forkSites {
+			kvs = append(kvs, kv{k, v})
+		}
+		sort.Slice(kvs, func(i, j int) bool { return kvs[i].v > kvs[j].v })
+		for i, e := range kvs {
+			if i < 25 {
+				fmt.Printf("  forks %8d  %s\n", e.v, e.k)
+			}
+		}
 		for _, r := range o.Results {
 			if r.Kind != "ok" {
 				fmt.Printf("  %s: %s @%s\n    stack: %s\n    model: %v\n", r.Kind, r.Msg, r.Where, r.Stack, r.Model)
